@@ -23,7 +23,7 @@ META = {
                     "joint axis obtained by differentiating those published positions"],
 }
 REQUIRED_CLASSES = ["theta:within_5e-4_of_a_limit"]
-REQUIRED_CLAUSES = ["space", "body", "link", "eetrans", "numerical", "velocity", "statics.power", "statics.inverse", "statics.linkmass"]
+REQUIRED_CLAUSES = ["space", "body", "link", "eetrans", "numerical", "velocity", "statics.power", "statics.inverse", "statics.linkmass", "statics.body", "velocity.joints"]
 
 
 def plan(tier, seed):
@@ -202,6 +202,41 @@ def run_case(case, ctx, bm):
                 cmp("statics.inverse", "statics.inverse/" + tag, got, Wv, float(np.linalg.norm(Wv)) * max(1.0, sv[0] / sv[5]), rel=1e-6)
         else:
             ctx.cls("statics_inverse_skipped_rank")
+    # ---- the generic Robot-level variants: body-frame statics, inverse Jacobians, joint rates from a twist ----
+    arm.FK(th.copy())            # the body-frame variants read the arm's current tool pose
+    nb = max(1e-9, float(np.linalg.norm(Jb_fd)))
+    taub = guard("statics.body", "statics.body", lambda: arm.staticForcesBody(Wrench(Wv.reshape((6, 1)).copy()), th.copy()))
+    if taub is not None:
+        cmp("statics.body", "statics.body.transpose/" + tag, np.asarray(taub, dtype=float).reshape(-1), Jb_fd.T @ Wv, nb * float(np.linalg.norm(Wv)))
+    sv = np.linalg.svd(Js_fd, compute_uv=False)
+    if n >= 6 and sv[5] >= 0.05:
+        c = sv[0] / sv[5]
+        if taub is not None:
+            Wbb = guard("statics.body", "statics.body.inverse", lambda: arm.staticForcesInvBody(np.asarray(taub, dtype=float).reshape((n, 1)).copy(), th.copy()))
+            if Wbb is not None:
+                got = np.asarray(Wbb.getData() if hasattr(Wbb, "getData") else Wbb, dtype=float).reshape(-1)
+                svb = np.linalg.svd(Jb_fd, compute_uv=False)
+                cmp("statics.body", "statics.body.inverse/" + tag, got, Wv, float(np.linalg.norm(Wv)) * max(1.0, svb[0] / svb[5]), rel=1e-6)
+        Vt = Js_fd @ qd
+        qd2 = guard("velocity.joints", "velocity.joints", lambda: arm.velocityAtJoints(Vt.copy(), th.copy()))
+        if qd2 is not None:
+            ctx.clause("velocity.joints")
+            back = Js_fd @ np.asarray(qd2, dtype=float).reshape(-1)
+            e = float(np.linalg.norm(back - Vt)) / max(1e-9, float(np.linalg.norm(Vt)) * c)
+            ctx.err("velocity.joints", e)
+            if e > 1e-6:
+                ctx.violation("velocity.joints", "velocity.joints/" + tag, {"rel_err": e, "cond": c}, case)
+        for nm, fn, J in (("inverseJacobian", lambda: arm.inverseJacobian(th.copy()), Js_fd), ("inverseJacobianBody", lambda: arm.inverseJacobianBody(th.copy()), Jb_fd)):
+            Ji = guard("velocity.joints", nm, fn)
+            if Ji is not None:
+                ctx.clause("velocity.joints")
+                Ji = np.asarray(Ji, dtype=float)
+                if Ji.shape != (n, 6):
+                    ctx.violation("velocity.joints", nm + "/shape", {"shape": Ji.shape}, case)
+                else:
+                    e = float(np.linalg.norm(J @ Ji @ J - J)) / (float(np.linalg.norm(J)) * c)
+                    if e > 1e-6:
+                        ctx.violation("velocity.joints", nm + "/not_a_generalised_inverse/" + tag, {"rel_err": e, "cond": c}, case)
     # link-mass statics by virtual work on the published frames
     masses = np.array(case["masses"], dtype=float)
     g = np.array(case["grav"], dtype=float)
